@@ -34,7 +34,7 @@ fn start(rng: Rng) -> Drv {
 }
 
 /// Read on (with `d 250`) until the suspended operation waits for a write.
-fn until_write(d: &mut Drv) {
+pub(super) fn until_write(d: &mut Drv) {
     for _ in 0..8 {
         if !d.suspended() || d.pend == Some('w') || d.starved {
             return;
